@@ -48,10 +48,10 @@ MANIFEST_ENTRY = {
                   "none of its file reads failed, and the files it read are exactly those of the version current at that instant (so "
                   "its rows are that snapshot's rows, for any write-once file contents) (C02_snapshot_read, C02_read_in_progress); a "
                   "call started after another returned never resolves an earlier index (C02_monotone); the operations visible after i "
-                  "flips are the initial ones plus the transactions of exactly those flips, none twice (C02_txn_atomic); every attempt "
-                  "of a retried transaction hands the commit protocol its whole operation queue -- every appended file, every path to "
-                  "delete, the largest cutoff, nothing else -- over the regenerated partition of Transaction.commit, with 'rebuilt in "
-                  "every attempt' and 'not edited afterwards' counted on the source (C02_retry_whole_queue).  The two code "
+                  "flips are the initial ones plus the transactions of exactly those flips, none twice (C02_txn_atomic); the regenerated "
+                  "partition of Transaction.commit maps a queue to exactly its appended files, paths to delete and largest cutoff "
+                  "(theorem, every queue), and that it is rebuilt inside every attempt of the retry loop and not edited afterwards are "
+                  "two facts COUNTED on the source, not derived in a model of the loop (C02_retry_whole_queue).  The two code "
                   "facts the model rests on are COUNTED on the source on every run (GenReadRes.v): every read API resolves the "
                   "pointer exactly once (C02_api_single_resolution; with two resolutions the statement is refuted: "
                   "C02_snapshot_read_needs_single_resolution) and one attempt of Transaction.commit reaches the commit protocol "
